@@ -108,6 +108,7 @@ func (e *env) close() {
 }
 
 type runState struct {
+	hugeDir bool // class readdir: the big directory has more than 1000 entries
 	t      *tape.Tape
 	m      *model
 	e      *env
@@ -261,6 +262,12 @@ func (c16) Run(t *tape.Tape, cfg sim.Config) (res sim.Result) {
 		s.m.root.kids["big"] = d
 		os.Mkdir(filepath.Join(e.root, "big"), 0o755)
 		n := t.Choose(71)
+		if t.Chance(1, 25) {
+			// a directory larger than any plausible internal batch, read with buffers of up to 64 KiB
+			n = 1030 + t.Choose(600)
+			s.hugeDir = true
+			res.Stat("probe.directory_with_more_than_1000_entries", 1)
+		}
 		for i := 0; i < n; i++ {
 			name := fmt.Sprintf("e%02d%s", i, strings.Repeat("x", t.Choose(5)*t.Choose(9)))
 			if t.Chance(1, 6) {
